@@ -1,0 +1,21 @@
+//! Verification hooks (only compiled with `--cfg octo_squirrel_verif`): public re-exports of the
+//! server-side codecs and message types, which live in private modules.
+//! Nothing here changes behaviour; with the cfg off this file is not part of the crate.
+#![allow(unused_imports)]
+pub use super::config::SslConfig;
+pub use super::template::message::InboundIn;
+pub use super::template::message::OutboundIn;
+
+pub mod shadowsocks {
+    pub use super::super::shadowsocks::verif::*;
+}
+
+pub mod vmess {
+    pub use super::super::vmess::ServerAeadCodec;
+    pub use super::super::vmess::new_codec;
+}
+
+pub mod trojan {
+    pub use super::super::trojan::ServerCodec;
+    pub use super::super::trojan::new_codec;
+}
